@@ -23,6 +23,8 @@ MODE = "C13"
 FIXOWN = -1
 FIXSEG = -1
 FIXN = -1
+SAME02 = 0  # value pool of three entries whose first and last entry share one expression string
+WIDE = None  # (sub-groups, segments) / data elements / root groups: overrides the symbolic child counts with a wide node
 FIXC0 = -1
 INDICATORS = (ModalMark.MUSS, ModalMark.SOLL, ModalMark.KANN, PrefixOperator.X, PrefixOperator.O, PrefixOperator.U)
 OUTCOMES = (True, False, None)
@@ -174,9 +176,12 @@ def _canned(tag, n=2):
 def group_step(own: int, parent: int, ng: int, ns: int, soll: bool, y0: int, y1: int, y2: int) -> bool:
     """
     pre: (FIXOWN < 0 or own == FIXOWN) and 0 <= own < 4 and 0 <= parent < 4 and 0 <= ng <= 2 and 0 <= ns <= 2 and 0 <= y0 <= 1 and 0 <= y1 <= 1 and 0 <= y2 <= 1
+    pre: WIDE is None or (ng == 0 and ns == 0)
     post: _
     """
     own, parent, ng, ns = xs.pick(own, 0, 4), xs.pick(parent, 0, 4), xs.pick(ng, 0, 3), xs.pick(ns, 0, 3)
+    if WIDE is not None:
+        ng, ns = WIDE
     ys = [xs.pick(y0, 0, 2), xs.pick(y1, 0, 2), xs.pick(y2, 0, 2)]
     par = (None, RVV.IS_REQUIRED, RVV.IS_OPTIONAL, RVV.IS_FORBIDDEN)[parent]
     subs = [SegmentGroup(discriminator=f"G{i}", ahb_expression=f"E#G{i}", segments=[], segment_groups=[]) for i in range(ng)]
@@ -245,12 +250,15 @@ def group_step(own: int, parent: int, ng: int, ns: int, soll: bool, y0: int, y1:
 def segment_step(own: int, parent: int, nde: int, soll: bool, y0: int, y1: int) -> bool:
     """
     pre: 0 <= own < 4 and 0 <= parent < 4 and 0 <= nde <= 3 and 0 <= y0 <= 1 and 0 <= y1 <= 1
+    pre: WIDE is None or nde == 0
     post: _
     """
     own, parent, nde = xs.pick(own, 0, 4), xs.pick(parent, 0, 4), xs.pick(nde, 0, 4)
+    if WIDE is not None:
+        nde = WIDE
     ys = [xs.pick(y0, 0, 2), xs.pick(y1, 0, 2)]
     par = (None, RVV.IS_REQUIRED, RVV.IS_OPTIONAL, RVV.IS_FORBIDDEN)[parent]
-    des = [DataElementFreeText(discriminator=f"D{i}", ahb_expression=f"E#D{i}", entered_input=None, data_element_id=f"000{i}") for i in range(nde)]
+    des = [DataElementFreeText(discriminator=f"D{i}", ahb_expression=f"E#D{i}", entered_input=None, data_element_id=f"{i:04d}") for i in range(nde)]
     seg = Segment(discriminator="S", ahb_expression="E#S", data_elements=des, section_name="s", segment_id="00001")
     calls = []
 
@@ -302,11 +310,14 @@ def segment_step(own: int, parent: int, nde: int, soll: bool, y0: int, y1: int) 
 def deep_step(n: int, soll: bool, y0: int, y1: int, y2: int) -> bool:
     """
     pre: 0 <= n <= 3 and 0 <= y0 <= 2 and 0 <= y1 <= 2 and 0 <= y2 <= 2
+    pre: WIDE is None or n == 0
     post: _
     """
     from maus.models.anwendungshandbuch import AhbMetaInformation, DeepAnwendungshandbuch
 
     n = xs.pick(n, 0, 4)
+    if WIDE is not None:
+        n = WIDE
     ys = [xs.pick(y0, 0, 3), xs.pick(y1, 0, 3), xs.pick(y2, 0, 3)]
     groups = [SegmentGroup(discriminator=f"G{i}", ahb_expression=f"E#G{i}", segments=[], segment_groups=[]) for i in range(n)]
     ahb = DeepAnwendungshandbuch(meta=AhbMetaInformation(pruefidentifikator="11042"), lines=groups)
@@ -334,35 +345,46 @@ def deep_step(n: int, soll: bool, y0: int, y1: int, y2: int) -> bool:
     return True
 
 
-def dispatch_step(kind: int, seg: int, soll: bool) -> bool:
+DISPATCH_INPUTS = (None, "", "A", "A ", " A", "  ", "a")
+
+
+def dispatch_step(kind: int, seg: int, soll: bool, inp: int) -> bool:
     """
-    pre: 0 <= kind < 2 and 0 <= seg < 3
+    pre: 0 <= kind < 2 and 0 <= seg < 3 and 0 <= inp < len(DISPATCH_INPUTS)
     post: _
     """
-    kind, seg = xs.pick(kind, 0, 2), xs.pick(seg, 0, 3)
+    kind, seg, inp = xs.pick(kind, 0, 2), xs.pick(seg, 0, 3), xs.pick(inp, 0, len(DISPATCH_INPUTS))
     calls = []
+    entered = DISPATCH_INPUTS[inp]
     de = (
-        DataElementFreeText(discriminator="D", ahb_expression="E#D", entered_input="x", data_element_id="0001")
+        DataElementFreeText(discriminator="D", ahb_expression="E#D", entered_input=entered, data_element_id="0001")
         if kind == 0
-        else DataElementValuePool(discriminator="D", value_pool=[ValuePoolEntry(qualifier="A", meaning="a", ahb_expression="X")], entered_input=None, data_element_id="0001")
+        else DataElementValuePool(discriminator="D", value_pool=[ValuePoolEntry(qualifier="A", meaning="a", ahb_expression="X")], entered_input=entered, data_element_id="0001")
     )
+    seen = []
 
     async def ft(data_element, segment_requirement=None, soll_is_required=True):
         calls.append(("freetext", segment_requirement, soll_is_required))
+        seen.append(data_element.entered_input)
         return _canned("D", 1)[0]
 
-    async def vp(data_element, segment_requirement):
+    async def vp(data_element, segment_requirement, *more, **kwmore):
         calls.append(("valuepool", segment_requirement, None))
+        seen.append(data_element.entered_input)
         return _canned("D", 1)[0]
 
     with Patch(validate_data_element_freetext=ft, validate_data_element_valuepool=vp):
         got = _run(V.validate_data_element(de, STATUS[seg], soll))
     xs.reached()
-    d = dict(kind=kind, seg=seg, soll=soll)
+    d = dict(kind=kind, seg=seg, soll=soll, inp=inp)
     soll_c = bool(xs.R(soll))
     want_kind = "freetext" if kind == 0 else "valuepool"
     if got[0] != "ok" or len(calls) != 1 or calls[0][0] != want_kind or calls[0][1] is not STATUS[seg]:
         return xs.fail(f"validate_data_element({want_kind}, segment status {STATUS[seg]}): {got[0]}, calls {calls}", **d)
+    if MODE in ("C17", "C15") and seen and seen[0] != entered:
+        with xs.nt():
+            what = f"validate_data_element({want_kind}) was given the entered value <{entered}> but judges <{seen[0]}> (a value that is not offered must be flagged as it was entered)"
+        return xs.fail(what, **d)
     if MODE == "C14" and kind == 0 and calls[0][2] != soll_c:
         return xs.fail(f"validate_data_element(free text, soll_is_required={soll_c}) passes soll_is_required={calls[0][2]} on", **d)
     return True
@@ -449,8 +471,12 @@ def valuepool_step(n: int, c0: int, c1: int, c2: int, seg: int, inp: int, y0: in
         return True
     segst = STATUS[seg]
     evs = [("invalid", "reason of invalidity") if c == 3 else ("ok", ("X", "KANN", "MUSS")[i], OUTCOMES[c], None, True, None) for i, c in enumerate(cs)]
-    entries = [ValuePoolEntry(qualifier=QUALS[i], meaning=f"meaning {i}", ahb_expression=f"E#Q{i}") for i in range(n)]
+    if SAME02 and n == 3:
+        cs[2], evs[2] = cs[0], evs[0]  # first and last entry carry the very same expression
+    entries = [ValuePoolEntry(qualifier=QUALS[i], meaning=f"meaning {i}", ahb_expression=f"E#Q{0 if (SAME02 and i == 2) else i}") for i in range(n)]
     de = DataElementValuePool(discriminator="D", value_pool=entries, entered_input=VP_INPUTS[inp], data_element_id="0001")
+    if SAME02 and n == 3 and c2 != 0:
+        return True
     with EvalStub({f"E#Q{i}": evs[i] for i in range(n)}, {"E#Q0": y0}):
         got = _run(V.validate_data_element_valuepool(de, segst))
     xs.reached()
